@@ -26,7 +26,10 @@ RULE = ('one evaluation = one case = a batch of runs; a run = a fresh container 
         'negative, also above sys.maxsize) and 1..4 devices, queries interleaved with edits; Records payloads include a '
         'legal-but-falsy record (empty path, empty RecordWifi()/RecordBluetooth(), all-zero RecordGnss) and records that are '
         'distinct objects comparing equal, in the enumerated stream (2 extra symbols) and in up to half of the random sets; (M) ill-typed calls mixed '
-        'into R; (T) 11..40 timestamps of mixed digit counts, the same entries built in 3 of {sorted, reversed, shuffled, odd '
+        'into R; (C) copies: an operation `copy` (copy.deepcopy, copy.copy, kapture.rigs_remove without rigs, dict-style '
+        'construction for Records, deepcopy-edit-and-drop) after which the run goes on with the copy - appended to every '
+        'enumerated sequence up to length 3, in dedicated runs (cache filled or not before the copy, queries outside/inside '
+        'the first..last range after it) and in 2% of the random operations; (T) 11..40 timestamps of mixed digit counts, the same entries built in 3 of {sorted, reversed, shuffled, odd '
         'ones in the middle/first/last} orders plus delete-and-reinsert moves, timestamp_length/sorted/membership after each. Non-trivial = the case has a run with an edit followed by a query; distinct = distinct batch content.')
 TRUSTED = ['quaternion.slerp / PoseTransform arithmetic inside compute_intermediate_pose: section variable `interp` '
            '(no contract needed: the theorems hold for every function); the harness observes the bracket of an '
@@ -155,8 +158,65 @@ def _exhaustive(alphabet, ts, max_len, kind, cases, tag, light_from=99, extra=No
             for s in alphabet:
                 seq = _number(list(prefix) + [s])
                 runs.append({'kind': kind, 'ops': seq + _battery(ts, kind, idx, full=ln < light_from)})
+                # the same history ending in a copy of the container: the battery is put to the copy
+                if ln <= 3 and not smp:
+                    variants = _COPIES[kind != 'traj']
+                    for how in (variants if ln <= 2 else [variants[idx % len(variants)]]):
+                        runs.append({'kind': kind, 'ops': seq + [_copy_op(how, ts)] +
+                                     _battery(ts, kind, idx + 1, full=ln < light_from)})
                 idx += 1
             cases.append({'runs': runs, 'digits': [], 'tag': f'{tag}/len={ln}' + ('(sampled)' if smp else '')})
+
+
+_COPIES = {False: ['deep', 'rigs', 'shallow', 'deep-discard'], True: ['deep', 'ctor', 'shallow', 'deep-discard']}
+
+
+def _copy_op(how, ts, dev='a'):
+    return ['copy', how, ts[0], dev] if how == 'deep-discard' else ['copy', how]
+
+
+def _copy_case(rng, kind):
+    """(C) a container is filled, some query fills the cache (or not), the container is copied (deepcopy, copy.copy,
+    rigs_remove() without rigs, dict-style construction) and the run goes on with the copy: queries outside and inside
+    the first..last range, further edits, a second copy."""
+    runs = []
+    for _ in range(3):
+        n = rng.randint(1, 8)
+        base = rng.choice([5, 1000, 1614362592000, 10 ** 18])
+        ts, x = [], base
+        for _i in range(n):
+            ts.append(x)
+            x += rng.randint(2, 1000)
+        devs = rng.sample(['cam0', 'cam1'], rng.choice([1, 2]))
+        order = list(ts)
+        rng.shuffle(order)
+        ops, pid = [], 0
+        for t in order:
+            for d in rng.sample(devs, rng.randint(1, len(devs))):
+                pid += 1
+                ops.append(['sp', t, d, pid])
+        d0 = devs[0]
+        big = 10 ** 19
+        outside = [['ip', ts[-1] + 7, d0, big], ['ip', ts[0] - 3, d0, big], ['ip', ts[0] + 1, d0, big],
+                   ['ip', ts[-1] - 1, d0, big]]
+        fill = rng.choice([[], [['sorted']], [['tslen']], [['ip', ts[0] + 1, d0, big]], [['ht', ts[0]]]])
+        queries = (outside + [['sorted'], ['tslen']]) if kind == 'traj' else []
+        queries += [['pairs'], ['len'], ['ht', ts[0]], ['hp', ts[-1], d0], ['gp', ts[0], d0]]
+        if kind != 'traj':
+            fill = [f for f in fill if f[0] == 'ht']
+        variants = _COPIES[kind != 'traj']
+        ops += fill + [_copy_op(rng.choice(variants), ts, d0)]
+        rng.shuffle(queries)
+        ops += queries
+        pid += 1
+        ops += [['sp', ts[-1] + 50, d0, pid]] + ([['sorted']] if kind == 'traj' and rng.random() < 0.7 else [])
+        if rng.random() < 0.5:
+            ops.append(['dt', ts[0]])
+        ops += [_copy_op(rng.choice(variants), ts, d0)]
+        rng.shuffle(queries)
+        ops += queries + ([['ip', ts[-1] + 60, d0, big], ['ip', ts[-1] + 20, d0, big]] if kind == 'traj' else [])
+        runs.append({'kind': kind, 'ops': ops})
+    return {'runs': runs, 'digits': [], 'tag': 'copies-' + ('traj' if kind == 'traj' else 'rec')}
 
 
 def _ts_pool(rng):
@@ -205,6 +265,8 @@ def _random_run(rng, kind, n_ops, malformed):
         r = rng.random()
         if malformed and r < 0.06:
             ops.append(['bad', rng.randrange(N_BAD), t, d])
+        elif r > 0.98:
+            ops.append(_copy_op(rng.choice(_COPIES[kind != 'traj']), [t], d))
         elif rng.random() < p_edit:
             r = rng.random()
             if r < p_del * 0.6:
@@ -353,6 +415,9 @@ def gen_cases(rng, tier):
         kind = KINDS[1 + i % 6]
         cases.append({'runs': [_random_run(rng, kind, n_ops, malformed=(i % 3 == 0))], 'digits': [],
                       'tag': 'rand-' + kind + ('+bad' if i % 3 == 0 else '')})
+    # (C) copies of containers, with and without a filled cache
+    for i in range(90 if quick else 900):
+        cases.append(_copy_case(rng, 'traj' if i % 3 else KINDS[1 + (i // 3) % 6]))
     # (T) the same >10 timestamps of mixed digit counts reached by several edit orders
     for i in range(80 if quick else 800):
         cases.append(_tslen_case(rng))
@@ -619,11 +684,52 @@ def _run_ops(run, rec):
                 if o == v:
                     return pid
         return None
+    def same_value(a, b):
+        if kind == 'traj':
+            import numpy as np
+            return np.array_equal(_pose_arrays(a), _pose_arrays(b), equal_nan=True)
+        return type(a) is type(b) and a == b
+
+    def adopt(container):
+        """After a deep copy the payloads are new objects: recognise each one by its value (payload values are
+        unique per id) and register its identity."""
+        for inner in dict.values(container):
+            for v in inner.values():
+                if id(v) in by_identity:
+                    continue
+                for pid, o in objs.items():
+                    if same_value(o, v):
+                        alive.append(v)
+                        by_identity[id(v)] = pid
+                        objs[pid] = v
+                        break
     good = mk(0)
     for i, op in enumerate(run['ops']):
         k = op[0]
         try:
-            if k == 'sp':
+            if k == 'copy':
+                import copy
+                import kapture
+                how = op[1]
+                if how == 'deep':
+                    c = copy.deepcopy(c)
+                elif how == 'shallow':
+                    c = copy.copy(c)
+                elif how == 'ctor':            # Records only: dict-style construction from another container
+                    c = type(c)(c)
+                elif how == 'rigs':            # Trajectories only: rigs_remove() = deepcopy + in-place edit (no rig here)
+                    c = kapture.rigs_remove(c, kapture.Rigs())
+                elif how == 'deep-discard':    # the copy is edited and dropped: the original must not notice
+                    c2 = copy.deepcopy(c)
+                    for t in list(dict.keys(c2)):
+                        del c2[t]
+                    c2[op[2], op[3]] = good
+                else:
+                    raise ValueError('unknown op copy/' + how)
+                alive.append(c)
+                adopt(c)
+                res = ['none']
+            elif k == 'sp':
                 o = mk(op[3])
                 hist.setdefault(op[2], []).append((op[1], op[3]))
                 c[op[1], op[2]] = o
@@ -723,7 +829,7 @@ def run_impl(case, ctx):
 _NAMES = {'sp': 'set pair', 'st': 'set timestamp', 'dp': 'delete pair', 'dt': 'delete timestamp',
           'ht': 'timestamp membership', 'hp': 'pair membership', 'gp': 'get pair', 'gt': 'get timestamp',
           'pairs': 'stored entries', 'len': 'number of timestamps', 'sorted': 'sorted timestamp list',
-          'tslen': 'timestamp_length', 'ip': 'intermediate_pose', 'bad': 'ill-typed call'}
+          'tslen': 'timestamp_length', 'ip': 'intermediate_pose', 'bad': 'ill-typed call', 'copy': 'copy'}
 
 
 def _judge_run(run, robs):
@@ -734,6 +840,8 @@ def _judge_run(run, robs):
         where = 'Trajectories' if run['kind'] == 'traj' else 'Records'
         if op[0] == 'ip' and got[0] == 'err':
             return i, f'{where}: intermediate_pose raised {got[1]}'
+        if op[0] == 'copy' and got[0] != 'none':
+            return i, f'{where}: copying the container ({op[1]}) failed: {got[-1]}'
         if exp is None:
             continue
         if exp == ['same-as-fresh']:
@@ -804,6 +912,8 @@ def _c_op(op, nm):
         return f'GT {z(op[1])}'
     if k in _C_NULLARY:
         return _C_NULLARY[k]
+    if k == 'copy':
+        return 'SO'          # only reached when the copy raised: paired with an error outcome, it cannot match
     if k == 'ip':
         return f'IP {z(op[1])} {s(op[2])} {z(op[3])}'
     raise ValueError(k)
@@ -837,13 +947,21 @@ def _c_out(o, nm):
     return 'EO'          # unknown value / an ill-typed call that returned
 
 
+def _is_clean_copy(op, o):
+    """A copy (deepcopy, copy.copy, rigs_remove with no rig, dict-style construction) is a container reached by the
+    same history: in the model it is the identity on the machine state, so a copy that succeeded is simply skipped and
+    the model keeps running; a copy that raised is encoded as a failing step."""
+    return op[0] == 'copy' and o == ['none']
+
+
 def encode(case, obs):
     nm = _Names()
     runs = []
     for run, robs in zip(case['runs'], obs['runs']):
         runs.append('{| r_kind := %s; r_ops := %s; r_outs := %s |}' % (
             'KTraj' if run['kind'] == 'traj' else 'KRec',
-            kv.clist(_c_op(op, nm) for op in run['ops']), kv.clist(_c_out(o, nm) for o in robs['outs'])))
+            kv.clist(_c_op(op, nm) for op, o in zip(run['ops'], robs['outs']) if not _is_clean_copy(op, o)),
+            kv.clist(_c_out(o, nm) for op, o in zip(run['ops'], robs['outs']) if not _is_clean_copy(op, o))))
     digits = [kv.cpair(kv.cz(n), nm.z(k if isinstance(k, int) else -1))
               for n, k in zip(case.get('digits', []), obs['digits'])]
     return nm.wrap('{| c_maxsize := %s; c_runs := %s; c_digits := %s |}' % (
